@@ -3,6 +3,7 @@ Lock-step differential trace monitor: instruction hook on the real interpreter v
 from rv.checks import _lock as K
 from rv.gen import programs as GP
 from rv.model import interp as I
+from rv.model import types as T_
 
 LEVEL = 'exploration'
 SHARDS = {'quick': 4, 'thorough': 16}
@@ -61,7 +62,7 @@ def workload(ctx, pid, mode, deep):
             ctx.count('run_code_programs')
             ctx.count('run_code_' + str(oc.kind))
             if oc.kind == 'violation':
-                ctx.violation('%s|%s' % (pid, oc.sig), 'through Interpreter.run_code: ' + str(oc.detail), {'code': code, 'env': K.env_to_json(env), 'label': 'run_code', 'types': [list(map(str, [t])) for t in types]})
+                ctx.violation('%s|%s' % (pid, oc.sig), 'through Interpreter.run_code: ' + str(oc.detail), {'code': code, 'env': K.env_to_json(env), 'label': 'run_code', 'types': [T_.to_micheline(t) for t in types]})
         if len(ctx.samples) < 3 and out.kind == 'agree' and len(out.mon.events) > 12:
             ctx.samples.append({'program': code, 'instructions_executed': len(out.mon.events), 'outcome': out.model.kind})
 
@@ -86,4 +87,10 @@ def run(ctx):
 
 
 def replay(ctx, case):
+    if case.get('label') == 'run_code' and case.get('types'):
+        from rv.core import lockstep as L_
+        oc = L_.run_both_contract(case['code'], [T_.from_micheline(t) for t in case['types']], K.env_from_json(case.get('env')), MODE)
+        if oc.kind == 'violation':
+            ctx.violation('%s|%s' % (PID, oc.sig), oc.detail, case)
+        return
     K.run_case(ctx, PID, case.get('label', 'replay'), case['code'], K.env_from_json(case.get('env')), MODE, False)
